@@ -125,6 +125,30 @@ func (propC04) Gen(r *Rng, idx int, tier string) *Scenario {
 			p.HasFirst = true
 			p.Argv0 = bstrs(genArgvAdversarial(ar, sc.Decl, ar.Range(0, 6)))
 		}
+		if ar.Chance(1, 6) {
+			// set a string option to an awkward value, then ask the same parser for help
+			// (the current value is rendered as the default)
+			var strs []optInfo
+			for _, oi := range optInfos(sc.Decl) {
+				if (oi.O.Kind == "string" || oi.O.Kind == "[]string" || oi.O.Kind == "*string" || oi.O.Kind == "map[string]string") && oi.LongFull != "" && len(oi.CmdPath) == 0 {
+					strs = append(strs, oi)
+				}
+			}
+			if len(strs) > 0 {
+				oi := strs[ar.Intn(len(strs))]
+				oi.O.Desc = "an option whose current value shows up in the help"
+				oi.O.Choices = nil
+				nasty := ar.Pick([]string{strings.Repeat("\x80", ar.Range(1, 300)), strings.Repeat("\xbf\x80", 90), "x" + strings.Repeat("\x80", 200), strings.Repeat("é", 150), strings.Repeat("w", 500),
+					"a\nb\n\nc", strings.Repeat("ab ", 100), "\xff\xfe", strings.Repeat("-", 120), "tab\there", strings.Repeat("\xe2\x80", 80)})
+				if isMapKind(oi.O.Kind) {
+					nasty = "k:" + nasty
+				}
+				p.HasFirst = true
+				p.Argv0 = []BStr{BStr("--" + oi.LongFull + "=" + nasty)}
+				p.Argv = []BStr{BStr(ar.Pick([]string{"--help", "-h"}))}
+				sc.Decl.Options |= optHelpFlag
+			}
+		}
 		// some environment defaults, convertible or not
 		for _, oi := range optInfos(sc.Decl) {
 			if oi.O.Env != "" && ar.Chance(1, 3) {
